@@ -42,6 +42,7 @@ func c05(c *Ctx) {
 	c05owners(c)
 	c05deleteByEvent(c)
 	c05values(c)
+	c05releaseFirst(c)
 
 	r.Rule("LOCK: reservationCache.{reservationInfos,reservationsOnNode,matchableOnNode,allocatedOnNode,preAllocatablePodsOnNode} are read under lock and written under the write lock")
 	c.RunLock("LOCK", LockCfg{Pkg: resvPkg, Type: "reservationCache", Mutex: "lock",
